@@ -254,3 +254,31 @@ func VF_C02_DefaultString(n, l int) {
 	vf.Assert("each-value-once", ok)
 	vf.Reach("end")
 }
+
+// AddValues / RemoveValues / Contains* with another *set* (ordered by a different,
+// natural collator) as the operand, into an empty or non-empty target.
+func VF_C02_SetOperand(n, m int) {
+	xs := vf.Ints("xs", n)
+	ys := vf.Ints("ys", m)
+	src := col.Set[int](nil).MakeFromArray(ys) // default collator: natural order
+	dst := ufSet(xs)
+	vf.Budget(4 * listBudget)
+	dst.AddValues(src)
+	got := dst.AsArray()
+	vf.Assert("addvalues-set-invariant", strictlyAscendingUF(got))
+	ok := true
+	for _, x := range xs {
+		ok = vf.And(ok, presentUF(got, x))
+	}
+	for _, y := range ys {
+		ok = vf.And(ok, presentUF(got, y))
+	}
+	for _, g := range got {
+		ok = vf.And(ok, vf.Or(member(xs, g), member(ys, g)))
+	}
+	vf.Assert("addvalues-set-is-union", ok)
+	v := vf.Int("v")
+	vf.Assert("contains-after", dst.ContainsValue(v) == presentUF(got, v))
+	vf.BudgetReset()
+	vf.Reach("end")
+}
